@@ -190,6 +190,68 @@ def run_c15(tier, seed, res):
     }
 
 
+
+# ------------------------------------------------------------------ C09..C12 (trainer; hooks)
+def run_c09(tier, seed, res):
+    E.run_workload(res, "mon", "C09", sz(tier, 4000, 150000), tier, seed, per_case_timeout=5.0)
+    return {
+        "rule": "case = (char window, char n, type window, type n in 1..4 drawn independently, 1 in 10 with a window of 0; dictionary with "
+                "length bucket 1..5; one of the 8 solvers) x corpus of 2..12 short sentences (tokenized or partially annotated) over a small "
+                "alphabet; after training, every boundary score of Predictor::new(trained) on training and fresh sentences is compared with "
+                "hook-logged quantised bias + sum of hook-logged quantised weights over the reference extractor's features; every stored "
+                "n-gram weight vector must have 2*own_window - n + 1 entries; non-trivial iff a boundary got a non-zero feature weight",
+        "required": ["configs_with_char_window_gt_type_window", "configs_with_type_window_gt_char_window",
+                     "configs_with_word_longer_than_bucket", "trained_char_ngrams", "trained_type_ngrams",
+                     "trained_dict_words_with_nonzero_weight", "boundaries_scored_with_nonzero_feature_weight",
+                     "configs_with_window_0"] + ["solver_%d" % i for i in range(8)],
+    }
+
+
+def run_c10(tier, seed, res):
+    E.run_workload(res, "mon", "C10", sz(tier, 8000, 300000), tier, seed)
+    return {
+        "rule": "case = corpus mixing fully annotated, partially annotated and unannotated sentences x window / n-gram sizes 0..4 x dictionary; "
+                "the examples stored for the learner (read through the verif-hooks accessor after every add_example) must be exactly one per "
+                "annotated boundary, in order, labelled by the annotation, with the feature multiset of the reference extractor; "
+                "non-trivial iff the corpus has an annotated boundary",
+        "required": ["unknown_boundaries_in_corpus", "annotated_boundaries_in_corpus", "examples_with_feature_count_above_1",
+                     "configs_with_window_0", "configs_with_n_greater_than_window", "configs_with_dictionary",
+                     "sentences_without_any_annotation"],
+    }
+
+
+def run_c11(tier, seed, res):
+    E.run_workload(res, "mon", "C11", sz(tier, 4400, 176000), tier, seed, per_case_timeout=5.0)
+    return {
+        "rule": "case = configuration (windows and n-gram sizes 0..4, bucket 1..5, solver = (case/11) mod 8) x corpus class = case mod 11 "
+                "{normal, empty, single sentence, single character, no word boundary, only word boundaries, untagged, partially tagged, "
+                "ambiguous tags, partial annotation, all unknown}; Trainer::new/add_example/train, to_vec/write/read, Predictor::new(false|true), "
+                "predict, fill_tags and every accessor run under catch_unwind; weights checked against the 16-bit range through the mirror; "
+                "every case is non-trivial (an Err from training is a legal outcome and is counted)",
+        "required": ["training_returned_model", "training_returned_error", "configs_with_type_window_gt_char_window",
+                     "configs_with_n_greater_than_window", "configs_with_window_0", "corpora_with_tags"] +
+                    ["solver_%d" % i for i in range(8)] +
+                    ["corpus_class_%s" % c for c in ["normal", "empty", "single_sentence", "single_character", "no_word_boundary",
+                                                      "only_word_boundaries", "untagged", "partially_tagged", "ambiguous_tags",
+                                                      "partial_annotation", "all_unknown"]],
+    }
+
+
+def run_c12(tier, seed, res):
+    E.run_workload(res, "mon", "C12", sz(tier, 4000, 150000), tier, seed, per_case_timeout=5.0)
+    return {
+        "rule": "case = tagged corpus (1..2 categories, absent tags, per-token preferred tag + noise so that single-tag and ambiguous tokens both "
+                "occur, partially annotated sentences, a tag dictionary with tokens absent from the corpus) x n-gram sizes 1..3 x solver; "
+                "through the mirror: per token the candidate sets equal the tags observed, no duplicates, score vectors sized to the trainable "
+                "candidates; on evaluation sentences with forced boundaries: single tag -> that tag, several -> one of them, unseen -> none; "
+                "stored candidate scores = hook-logged quantised biases + weights over the reference tag features; "
+                "non-trivial iff an evaluation token with known tags was checked",
+        "required": ["tokens_seen_with_tags", "tokens_only_in_tag_dictionary", "categories_with_single_tag",
+                     "categories_with_several_tags", "evaluation_tokens_with_known_tags",
+                     "candidate_scores_compared_with_learned_classifier"],
+    }
+
+
 PROPS = {
     "C01": {"level": "exploration", "run": run_c01},
     "C02": {"level": "exploration", "run": run_c02},
@@ -199,6 +261,10 @@ PROPS = {
     "C06": {"level": "exploration", "run": run_c06},
     "C07": {"level": "fault_enumeration", "run": run_c07},
     "C08": {"level": "exploration", "run": run_c08},
+    "C09": {"level": "exploration", "run": run_c09},
+    "C10": {"level": "exploration", "run": run_c10},
+    "C11": {"level": "exploration", "run": run_c11},
+    "C12": {"level": "exploration", "run": run_c12},
     "C14": {"level": "exploration", "run": run_c14},
     "C15": {"level": "exploration", "run": run_c15},
 }
